@@ -11,6 +11,7 @@ import porepy as pp
 from porepy.geometry import constrain_geometry
 
 EPS = F(1, 10 ** 9)
+CONTACT_KEY = "polygons_by_polyhedron: exact contact with a non-box polyhedron"
 
 W_POLY = [[0, 0], [10, 0], [10, 5], [8, 5], [8, 1], [6, 1], [5, 3], [4, 1], [2, 1], [2, 5], [0, 5]]
 L_POLY = [[0, 0], [4, 0], [4, 4], [2, 4], [2, 2], [0, 2]]
@@ -114,6 +115,71 @@ def clip_poly_halfspace(verts, axis, bound, keep_below):
             t = fa / (fa - fb)
             out.append(tuple(a[k] + t * (b[k] - a[k]) for k in range(3)))
     return out
+
+
+def clip_poly_plane(verts, n, c):
+    """Clip a convex polygon (3-D vertex list) by the half-space n.x <= c, exactly."""
+    out = []
+    m = len(verts)
+    f = lambda p: sum(n[k] * p[k] for k in range(3)) - c
+    for i in range(m):
+        a, b = verts[i], verts[(i + 1) % m]
+        fa, fb = f(a), f(b)
+        if fa <= 0:
+            out.append(a)
+        if (fa < 0 < fb) or (fb < 0 < fa):
+            t = fa / (fa - fb)
+            out.append(tuple(a[k] + t * (b[k] - a[k]) for k in range(3)))
+    return out
+
+
+def corner_polyhedron(shape, A, B, C, mirror=0):
+    """Convex polyhedra all of whose vertices are corners of the box [0,A]x[0,B]x[0,C] but
+    which are not the box: sides (vertex lists) and the half-spaces n.x <= c describing them.
+    mirror: bit k reflects coordinate k in the box."""
+    O, X, Y, Z = (0, 0, 0), (A, 0, 0), (0, B, 0), (0, 0, C)
+    XY, YZ = (A, B, 0), (0, B, C)
+    if shape == "tet":
+        sides = [[O, X, Y], [O, X, Z], [O, Y, Z], [X, Y, Z]]
+        hs = [((-1, 0, 0), 0), ((0, -1, 0), 0), ((0, 0, -1), 0), ((B * C, A * C, A * B), A * B * C)]
+    elif shape == "wedge":
+        sides = [[O, X, Z], [Y, XY, YZ], [O, Y, YZ, Z], [O, X, XY, Y], [X, XY, YZ, Z]]
+        hs = [((-1, 0, 0), 0), ((0, -1, 0), 0), ((0, 0, -1), 0), ((0, 1, 0), B),
+              ((C, 0, A), A * C)]
+    elif shape == "pyramid":
+        sides = [[O, X, XY, Y], [O, Y, Z], [O, X, Z], [X, XY, Z], [XY, Y, Z]]
+        hs = [((-1, 0, 0), 0), ((0, -1, 0), 0), ((0, 0, -1), 0), ((C, 0, A), A * C),
+              ((0, C, B), B * C)]
+    else:
+        raise ValueError(shape)
+    dims = (A, B, C)
+    for k in range(3):
+        if (mirror >> k) & 1:
+            sides = [[tuple(dims[j] - p[j] if j == k else p[j] for j in range(3)) for p in sd]
+                     for sd in sides]
+            hs = [(tuple(-n[j] if j == k else n[j] for j in range(3)), c - n[k] * dims[k])
+                  for n, c in hs]
+    return sides, hs
+
+
+def polyhedron_of(case):
+    """(sides as 3 x n float arrays, half-spaces) of the clipping polyhedron of a case."""
+    A, B, C = case["box"]
+    shape = case.get("shape", "box")
+    if shape == "box":
+        faces = box_faces(A, B, C, triangulated=case.get("tri_box", False),
+                          diag=case.get("diag", 0), perm=case.get("perm"),
+                          roll=case.get("roll", 0))
+        hs = [((1, 0, 0), A), ((-1, 0, 0), 0), ((0, 1, 0), B), ((0, -1, 0), 0),
+              ((0, 0, 1), C), ((0, 0, -1), 0)]
+        return faces, hs
+    sides, hs = corner_polyhedron(shape, A, B, C, case.get("mirror", 0))
+    faces = [np.array(sd, dtype=float).T for sd in sides]
+    roll = case.get("roll", 0)
+    faces = [np.roll(f, roll % f.shape[1], axis=1).copy() for f in faces]
+    if case.get("perm") is not None:
+        faces = [faces[i] for i in case["perm"]]
+    return faces, hs
 
 
 def area2d(pts):
@@ -236,7 +302,12 @@ class C44(Prop):
             "(box x triangle/parallelogram with odd/16 coordinates; 60% of the boxes as triangulated "
             "surfaces = coplanar neighbouring sides with random diagonals, sides in random order, "
             "polygons large enough to cut several sides); non-trivial = some segment is "
-            "cut (a piece differs from its segment) or a polygon is cut by the box; distinct by "
+            "cut (a piece differs from its segment) or a polygon is cut by the box; 12% of the volume "
+            "are FAMILIES: one polygon listed from every starting vertex and in both orientations with "
+            "the same segments, incl. segments with both end points strictly inside that cross a "
+            "notch; 12% are NON-BOX polyhedra with all vertices at bounding-box corners (corner "
+            "tetrahedron, wedge, pyramid over a face; mirrored, sides permuted) with polygons inside "
+            "the box but outside / straddling the polyhedron, 30% of them with a vertex exactly on an edge or side; 4% boxes with a polygon vertex exactly on a side or an edge; distinct by "
             "(case, output)")
     trusted = ["shapely's answers are captured by calling the same shapely methods on the same "
                "objects from the harness (glue tie)",
@@ -311,8 +382,97 @@ class C44(Prop):
         p = P()
         return p + p                       # degenerate
 
+    def _inside_crossing(self, rng, poly, want=2):
+        """Segments with BOTH end points strictly inside the polygon that leave it in between
+        (they cross a notch); end points on the half-integer grid."""
+        pf = [(F(p[0]), F(p[1])) for p in poly]
+        lo = [2 * min(p[k] for p in poly) for k in range(2)]
+        hi = [2 * max(p[k] for p in poly) for k in range(2)]
+        inside = []
+        for _ in range(60):
+            q = (F(rng.randint(lo[0], hi[0]), 2), F(rng.randint(lo[1], hi[1]), 2))
+            if classify(q, pf) == "in":
+                inside.append(q)
+        out = []
+        for _ in range(80):
+            if len(inside) < 2 or len(out) >= want:
+                break
+            a, b = rng.sample(inside, 2)
+            if a != b and any(c == "out" for _, _, c in elementary_intervals(a, b, pf)):
+                out.append([float(a[0]), float(a[1]), float(b[0]), float(b[1])])
+        return out
+
+    def _family(self, rng):
+        """One non-convex (or convex) polygon listed from EVERY starting vertex, in both
+        orientations, always with the same segments (incl. inside-inside segments across a
+        notch): the answer must not depend on how the polygon is listed."""
+        kind, poly = self._polygon0(rng)
+        segs = [self._segment(rng, poly) for _ in range(rng.randint(1, 3))]
+        segs += self._inside_crossing(rng, poly)
+        tags = [rng.randint(-5, 9) for _ in segs]
+        n = len(poly)
+        for rev in (False, True):
+            base = poly[::-1] if rev else poly
+            for k in range(n):
+                yield {"kind": kind + ("_rev" if rev else ""), "poly": base[k:] + base[:k],
+                       "segs": segs, "tags": tags, "family": True}
+
     def generate(self, rng, n, tier):
-        for i in range(n):
+        i = 0
+        while i < n:
+            i += 1
+            r0 = rng.random()
+            if r0 < 0.12:
+                # polyhedra whose vertices are all corners of their bounding box but which are
+                # not boxes; polygons inside the box, outside / straddling the polyhedron
+                sdim = rng.randint(1, 3)
+                shape = rng.choice(["tet", "wedge", "pyramid"])
+                nsides = {"tet": 4, "wedge": 5, "pyramid": 5}[shape]
+                perm = list(range(nsides))
+                rng.shuffle(perm)
+                o4 = lambda: 4 * rng.randint(0, 4 * sdim - 1) + 1       # = 1 mod 4, inside the box
+                big = rng.random() < 0.3
+                m = 12 if big else 3
+                mirror = rng.randrange(8)
+                p0 = [o4(), o4(), o4()]
+                if rng.random() < 0.3:
+                    # CONTACT: first vertex exactly on an edge or on a side of the polyhedron
+                    sides, _ = corner_polyhedron(shape, sdim, sdim, sdim, mirror)
+                    sd = rng.choice(sides)
+                    j = rng.randrange(len(sd))
+                    V = [sd[j], sd[(j + 1) % len(sd)], sd[(j + 2) % len(sd)]]
+                    w = [rng.randint(1, 14), 0, 0]
+                    if rng.random() < 0.5:
+                        w[1] = 16 - w[0]                      # on the edge V0-V1
+                    else:
+                        w[1] = rng.randint(1, 15 - w[0])
+                        w[2] = 16 - w[0] - w[1]               # on the side
+                    p0 = [sum(w[i] * V[i][k] for i in range(3)) for k in range(3)]
+                yield {"kind": "polyhedron", "shape": shape, "box": [sdim] * 3,
+                       "mirror": mirror, "perm": perm, "roll": rng.randrange(3),
+                       "p0": p0,
+                       "u": [4 * rng.randint(-m, m) for _ in range(3)],
+                       "v": [4 * rng.randint(-m, m) for _ in range(3)],
+                       "tri": rng.random() < 0.5}
+                continue
+            if r0 < 0.16:
+                # CONTACT: the first polygon vertex lies exactly on a side (one coordinate at a
+                # box bound) or on an edge (two coordinates) of a box
+                A, B, C = rng.randint(1, 3), rng.randint(1, 3), rng.randint(1, 3)
+                dims = [A, B, C]
+                p0 = [2 * rng.randint(0, 8 * dims[k] - 1) + 1 for k in range(3)]
+                for k in rng.sample(range(3), rng.choice([1, 1, 2])):
+                    p0[k] = rng.choice([0, 16 * dims[k]])
+                yield {"kind": "polyhedron", "box": dims, "p0": p0, "contact": True,
+                       "u": [2 * rng.randint(-12, 12) for _ in range(3)],
+                       "v": [2 * rng.randint(-12, 12) for _ in range(3)],
+                       "tri": rng.random() < 0.5}
+                continue
+            if r0 < 0.28:
+                for case in self._family(rng):
+                    yield case
+                    i += 1
+                continue
             if rng.random() < 0.25:
                 A, B, C = rng.randint(1, 3), rng.randint(1, 3), rng.randint(1, 3)
                 od = lambda lo, hi: (2 * rng.randint(8 * lo, 8 * hi) + 1)
@@ -366,11 +526,18 @@ class C44(Prop):
                 self.stats["polyhedron_degenerate"] = self.stats.get("polyhedron_degenerate", 0) + 1
                 return {"skipped": True}
             poly = np.array([[float(x) for x in p] for p in vs]).T
-            faces = box_faces(*case["box"], triangulated=case.get("tri_box", False),
-                              diag=case.get("diag", 0), perm=case.get("perm"),
-                              roll=case.get("roll", 0))
-            out, inds = constrain_geometry.polygons_by_polyhedron(poly, faces)
-            k = "polyhedron_triangulated" if case.get("tri_box") else "polyhedron"
+            faces, _ = polyhedron_of(case)
+            try:
+                out, inds = constrain_geometry.polygons_by_polyhedron(poly, faces)
+            except (AssertionError, ValueError) as e:
+                # the function's own sanity checks: 'assert False' ("inside_polyhedron test is
+                # bad"), polygons_3d "There should be at most two intersections", ...
+                if isinstance(e, ValueError) and "at most two intersections" not in str(e):
+                    raise
+                self.stats["polyhedron_exception"] = self.stats.get("polyhedron_exception", 0) + 1
+                return {"skipped": False, "error": type(e).__name__, "polys": [], "inds": []}
+            k = ("polyhedron_triangulated" if case.get("tri_box") else
+                 "polyhedron" if case.get("shape", "box") == "box" else "polyhedron_" + case["shape"])
             self.stats[k] = self.stats.get(k, 0) + 1
             return {"skipped": False, "polys": [p.T.tolist() for p in out],
                     "inds": [int(i) for i in inds]}
@@ -420,12 +587,14 @@ class C44(Prop):
     def _oracle_polyhedron(self, case, res):
         if res["skipped"]:
             return None
+        if res.get("error"):
+            return f"polyhedron: {res['error']} raised instead of a result"
         vs = self._poly3(case)
         box = case["box"]
+        _, hspaces = polyhedron_of(case)
         cl = list(vs)
-        for ax in range(3):
-            cl = clip_poly_halfspace(cl, ax, F(box[ax]), True)
-            cl = clip_poly_halfspace(cl, ax, F(0), False)
+        for hn, hc in hspaces:
+            cl = clip_poly_plane(cl, [F(x) for x in hn], F(hc))
         u = [F(x, 16) for x in case["u"]]
         v = [F(x, 16) for x in case["v"]]
         nrm = [cross(u[1], u[2], v[1], v[2]), cross(u[2], u[0], v[2], v[0]),
@@ -444,8 +613,11 @@ class C44(Prop):
         for poly in res["polys"]:
             ps = [tuple(F(c) for c in p) for p in poly]
             for p in ps:
-                if any(p[k] < -tol or p[k] > box[k] + tol for k in range(3)):
-                    return f"polyhedron: returned vertex {[float(c) for c in p]} lies outside the box {box}"
+                for hn, hc in hspaces:
+                    d = sum(hn[k] * p[k] for k in range(3)) - hc
+                    if d > 0 and d * d > tol * tol * sum(x * x for x in hn):
+                        return (f"polyhedron: returned vertex {[float(c) for c in p]} lies outside the "
+                                f"{case.get('shape', 'box')} in the box {box}")
                 dist = sum(nrm[k] * (p[k] - vs[0][k]) for k in range(3))
                 if dist * dist > tol * tol * nn:
                     return f"polyhedron: returned vertex {[float(c) for c in p]} is off the polygon's plane"
@@ -461,7 +633,7 @@ class C44(Prop):
             total += area2d(hull)
         if abs(total - exact) > tol * (1 + exact):
             return (f"polyhedron: the returned polygons cover the (projected) area {float(total)!r}, "
-                    f"the exact intersection with the box has {float(exact)!r}")
+                    f"the exact intersection with the {case.get('shape', 'box')} has {float(exact)!r}")
         return None
 
     def oracle(self, case, res):
@@ -546,8 +718,30 @@ class C44(Prop):
                 return True
         return False
 
+    def _vertex_on_boundary(self, case):
+        """Exact contact: a polygon vertex lies ON the boundary of the polyhedron, or the polygon's
+        plane passes through a vertex of the polyhedron."""
+        faces, hspaces = polyhedron_of(case)
+        vs = self._poly3(case)
+        for p in vs:
+            vals = [sum(F(n[k]) * p[k] for k in range(3)) - F(c) for n, c in hspaces]
+            if all(v <= 0 for v in vals) and any(v == 0 for v in vals):
+                return True
+        # ... or the polygon's plane passes exactly through a vertex of the polyhedron
+        u = [F(x, 16) for x in case["u"]]
+        v = [F(x, 16) for x in case["v"]]
+        nrm = [cross(u[1], u[2], v[1], v[2]), cross(u[2], u[0], v[2], v[0]),
+               cross(u[0], u[1], v[0], v[1])]
+        for f in faces:
+            for q in f.T:
+                if sum(nrm[k] * (F(float(q[k])) - vs[0][k]) for k in range(3)) == 0:
+                    return True
+        return False
+
     def finding_key(self, case, res, why):
         if case["kind"] == "polyhedron":
+            if case.get("shape", "box") != "box" and self._vertex_on_boundary(case):
+                return CONTACT_KEY
             return "polygons_by_polyhedron: " + why.split(":")[1].strip()[:40]
         if "not covered" in why:
             types = {g["type"] for g in res.get("shapely", [])}
